@@ -152,6 +152,9 @@ def run(ctx):
                                 ctx.violation("exporter:inapplicable-member-not-refused", info)
                             if allow and raised:
                                 ctx.violation("exporter:raises-although-inapplicable-actions-were-allowed-for-the-call", info)
+                            if ctor_allow and raised:
+                                # allowed when the exporter was built (the single-agent exporter honours the same setting)
+                                ctx.violation("exporter:raises-although-the-exporter-was-built-to-allow-inapplicable-actions", info)
             joint_lines.append(magen.joint_line(w, members))
             joint_expected.append(s_star)
             st = s_star
@@ -169,7 +172,11 @@ def run(ctx):
             try:
                 prob = lib.parse_problem_text(ptext, dom)
                 ex = MultiAgentTrajectoryExporter(dom)
-                trip = ex.parse_plan(prob, action_sequence=joint_lines)
+                # planners print plans in upper case; names are case-insensitive in PDDL
+                shown = [ln.upper() if rng.random() < 0.25 else ln for ln in joint_lines]
+                if shown != joint_lines:
+                    ctx.count("joint_plans_with_upper_case_lines")
+                trip = ex.parse_plan(prob, action_sequence=shown)
                 lines = ex.export(trip)
                 tree = sx.read("".join(lines))
             except BaseException as e:
